@@ -2,6 +2,7 @@ package rules
 
 import (
 	"fmt"
+	"go/constant"
 	"go/types"
 	"sort"
 	"strings"
@@ -108,7 +109,34 @@ func ruleAccessors(c *Ctx, rule string) {
 	// Count
 	cnt := c.P.MustFunc("types.(*Context).Count")
 	got := c.accessorReturns(cnt)
-	good := len(got) == 1 && got[0].vals == "call<builtin:len>(recv.params)"
+	good := len(an.Returns(cnt)) > 0
+	for _, r := range an.Returns(cnt) {
+		if len(r.Results) != 1 {
+			good = false
+			continue
+		}
+		v := an.ReturnValue(r, 0)
+		if c.O.Of(v).String() == "call<builtin:len>(recv.params)" {
+			continue
+		}
+		// the count of a map that is nil (or empty) spelled out as 0
+		k, isK := v.(*ssa.Const)
+		zero := isK && k.Value != nil && k.Value.Kind() == constant.Int && k.Int64() == 0
+		if !zero || !an.DominatedByEdge(r, func(b *ssa.BasicBlock, succ int) bool {
+			return edgeHas(b, succ, func(cond ssa.Value, truth bool) bool {
+				x, kk, eq, ok := an.CondAtom(cond)
+				if !ok || eq != truth {
+					return false
+				}
+				if kk.Value == nil {
+					return an.AP(x) == "recv.params"
+				}
+				return kk.Value.Kind() == constant.Int && kk.Int64() == 0 && c.O.Of(x).String() == "call<builtin:len>(recv.params)"
+			})
+		}) {
+			good = false
+		}
+	}
 	c.R.Add(rule, c.fk(cnt), "returns", c.P.Pos(cnt.Pos()), good, ifelse(good, "len(params)", "Count returns "+sigString(got)))
 	// Set: every path stores (k, v)
 	set := c.P.MustFunc("types.(*Context).Set")
